@@ -77,9 +77,10 @@ func normalizeDocument(schema *Schema, doc *ast.Document, operationName string) 
 	}
 
 	ctx := &normCtx{
-		schema:    schema,
-		synthArgs: map[string]interface{}{},
-		newVarDefs: nil,
+		schema:      schema,
+		synthArgs:   map[string]interface{}{},
+		newVarDefs:  nil,
+		keepLiteral: argumentKeysInFragments(doc),
 	}
 
 	newOp := cloneOperation(op)
@@ -170,16 +171,6 @@ func fingerprintDocument(doc *ast.Document, op *ast.OperationDefinition, operati
 		w.writeByte(';')
 	}
 	return strconv.FormatUint(h.Sum64(), 16)
-}
-
-func collectFragmentDefs(doc *ast.Document) map[string]*ast.FragmentDefinition {
-	out := map[string]*ast.FragmentDefinition{}
-	for _, def := range doc.Definitions {
-		if fd, ok := def.(*ast.FragmentDefinition); ok && fd.Name != nil {
-			out[fd.Name.Value] = fd
-		}
-	}
-	return out
 }
 
 // fingerprintWriter walks the AST and feeds canonical bytes into the
@@ -377,6 +368,42 @@ type normCtx struct {
 	// repeated selections of a field with identical arguments stay identical
 	// (two different variables would make them conflict in validation).
 	byLiteral map[string]string
+	// keepLiteral holds the response keys of fields that are selected with
+	// arguments inside fragment definitions. Fragment definitions are not
+	// rewritten, so a field of the operation with such a response key keeps
+	// its literal arguments too: otherwise the same call would be spelled
+	// with a literal in the fragment and with a variable in the operation,
+	// and the overlapping-fields rule would see two different calls.
+	keepLiteral map[string]bool
+}
+
+// argumentKeysInFragments lists the response keys of all fields that carry
+// arguments inside the fragment definitions of doc.
+func argumentKeysInFragments(doc *ast.Document) map[string]bool {
+	keys := map[string]bool{}
+	var walk func(sel *ast.SelectionSet)
+	walk = func(sel *ast.SelectionSet) {
+		if sel == nil {
+			return
+		}
+		for _, isel := range sel.Selections {
+			switch s := isel.(type) {
+			case *ast.Field:
+				if len(s.Arguments) > 0 {
+					keys[getFieldEntryKey(s)] = true
+				}
+				walk(s.SelectionSet)
+			case *ast.InlineFragment:
+				walk(s.SelectionSet)
+			}
+		}
+	}
+	for _, def := range doc.Definitions {
+		if fd, ok := def.(*ast.FragmentDefinition); ok {
+			walk(fd.SelectionSet)
+		}
+	}
+	return keys
 }
 
 func (c *normCtx) nextName() string {
@@ -425,7 +452,7 @@ func (c *normCtx) normalizeField(f *ast.Field, parentType *Object) {
 	if fieldDef == nil {
 		return
 	}
-	if len(f.Arguments) > 0 {
+	if len(f.Arguments) > 0 && !c.keepLiteral[getFieldEntryKey(f)] {
 		// Build an arg-name → argDef map for O(1) lookup.
 		argDefByName := make(map[string]*Argument, len(fieldDef.Args))
 		for _, ad := range fieldDef.Args {
